@@ -219,6 +219,12 @@ pub struct Execution {
     pub idgen: Arc<UuidGenerator>,
     pub exec: Option<ExecResult>,
     pub bounds: Arc<Bounds>,
+    /// a free-running call exceeded its step budget and the thread was stopped
+    pub incomplete: bool,
+}
+
+pub fn apply_pub(level: &PriceLevel, idgen: &UuidGenerator, op: &COp) -> CRes {
+    apply(level, idgen, op)
 }
 
 fn apply(level: &PriceLevel, idgen: &UuidGenerator, op: &COp) -> CRes {
@@ -350,6 +356,7 @@ pub fn run_e1(
         idgen,
         exec: Some(exec),
         bounds,
+        incomplete: false,
     }
 }
 
@@ -378,7 +385,22 @@ pub fn run_e2(prog: &Program, seed: u64, delay_prob: u32, pollers: usize, polled
                 for (oi, op) in ops.iter().enumerate() {
                     raise_bounds(&bounds, op);
                     let call = E2_CLOCK.fetch_add(1, Ordering::SeqCst);
-                    let res = apply(&level, &idgen, op);
+                    hook::count_reset(hook::FREE_RUN_CALL_BUDGET);
+                    let res = match hook::quiet_catch(|| apply(&level, &idgen, op)) {
+                        Ok(r) => r,
+                        Err(_) => {
+                            // step budget exceeded: the call stays open, the thread stops
+                            log.push(CRec {
+                                thread: ti,
+                                idx: oi,
+                                op: op.clone(),
+                                call,
+                                ret: u64::MAX,
+                                res: CRes::Open,
+                            });
+                            break;
+                        }
+                    };
                     let ret = E2_CLOCK.fetch_add(1, Ordering::SeqCst);
                     log.push(CRec {
                         thread: ti,
@@ -421,6 +443,7 @@ pub fn run_e2(prog: &Program, seed: u64, delay_prob: u32, pollers: usize, polled
     let final_obs = observe(&level);
     let mut log: Vec<CRec> = logs.into_iter().flatten().collect();
     log.sort_by_key(|r| r.call);
+    let incomplete = log.iter().any(|r| matches!(r.res, CRes::Open));
     Execution {
         prog: prog.clone(),
         log,
@@ -429,12 +452,13 @@ pub fn run_e2(prog: &Program, seed: u64, delay_prob: u32, pollers: usize, polled
         idgen,
         exec: None,
         bounds,
+        incomplete,
     }
 }
 
 impl Execution {
     pub fn completed(&self) -> bool {
-        self.exec.as_ref().map(|e| e.verdict == Verdict::Completed).unwrap_or(true)
+        !self.incomplete && self.exec.as_ref().map(|e| e.verdict == Verdict::Completed).unwrap_or(true)
     }
     /// two different threads touched the same order id with at least one mutator and their
     /// call intervals overlapped
